@@ -30,10 +30,11 @@ const (
 	opStop
 	opAbort
 	opPutNoType // Put while no data type is selected on the store: refused, and nothing may be left behind
+	opSameConn  // the pool is handed to the live store once more (WithConnection, as a reconnect hook would): no effect
 	c13NOps
 )
 
-var c13OpName = []string{"Put(k1)", "Put(k2)", "Get(k1)", "Get(k2)", "Get(never)", "GetLang(miss)", "GetLang(hit)", "Start", "Stop", "Abort", "Put(no type selected)"}
+var c13OpName = []string{"Put(k1)", "Put(k2)", "Get(k1)", "Get(k2)", "Get(never)", "GetLang(miss)", "GetLang(hit)", "Start", "Stop", "Abort", "Put(no type selected)", "WithConnection(same pool)"}
 
 type c13run struct {
 	sig, msg string
@@ -227,6 +228,8 @@ func execC13(seq []int, faults []int, keepLog bool) (res c13run, conn *pgfake.Co
 				err = store.Stop(ctx)
 			case opAbort:
 				store.Abort(ctx)
+			case opSameConn:
+				store.WithConnection(conn)
 			}
 		})
 		res.events++
